@@ -115,7 +115,7 @@ def board_rules(a=16, full_n=None):
         (r"can_castle", 7, "king path (between + destination) has <= 6 squares"),
         (r"piece_on", 7, "6 piece kinds"),
         (r"play_unchecked|null_move|calculate_checkers_and_pins", a + 1, "sliders aligned with a king: bounded by the assumption of the harness (<= %d)" % a),
-        (r"effective_ep", 3, "<= 2 pawn-attack squares"),
+        (r"same_position", 3, "the loop over the (<= 2) pawn-attack squares of the en-passant square inside same_position"),
         (r"board_is_valid", 7, "6 piece kinds / 2 colours"),
         (r"castle_rights_are_valid", 3, "2 colours"),
         (r"en_passant_is_valid", 4, "<= 2 checkers accepted (+1)"),
